@@ -1,1 +1,131 @@
-// placeholder
+//! C17 — PTH / SMX in-memory images with fixed small counts (DESIGN.md C17 for what is outside).
+use crate::common::*;
+use binrw::{BinRead, BinWrite};
+use insim_pth::Pth;
+use insim_smx::Smx;
+use std::io::Cursor;
+
+macro_rules! pth_image {
+    ($name:ident, $n:expr, $len:expr) => {
+        /// node count field = $n (concrete), every other byte symbolic (NaN bit patterns included)
+        #[kani::proof]
+        #[kani::unwind(8)]
+        #[kani::stub(alloc::fmt::format, stub_format)]
+        fn $name() {
+            let mut img: [u8; $len] = kani::any();
+            img[0] = b'L'; img[1] = b'F'; img[2] = b'S'; img[3] = b'P'; img[4] = b'T'; img[5] = b'H';
+            img[8] = $n; img[9] = 0; img[10] = 0; img[11] = 0;
+            let mut c = Cursor::new(&img[..]);
+            let r = Pth::read(&mut c);
+            match &r {
+                Ok(p) => {
+                    assert!(c.position() == $len, "C17:PTH reader consumes the whole image");
+                    assert!(p.nodes.len() == $n, "C17:PTH node count as declared");
+                    assert!(p.version == img[6] && p.revision == img[7], "C17:PTH header fields");
+                    let mut out = [0xAAu8; $len];
+                    let mut w = Cursor::new(&mut out[..]);
+                    assert!(p.write(&mut w).is_ok(), "C17:parsed PTH writes");
+                    assert!(w.position() == $len, "C17:written PTH has the same length");
+                    let i: usize = kani::any();
+                    kani::assume(i < $len);
+                    assert!(out[i] == img[i], "C17:written PTH bytes identical to the bytes read");
+                    kani::cover!(true, "PTH image parsed");
+                }
+                Err(_) => assert!(false, "C17:well-formed PTH image rejected"),
+            }
+            std::mem::forget(r);
+        }
+    };
+}
+pth_image!(c17_pth_image_0, 0, 16);
+pth_image!(c17_pth_image_1, 1, 56);
+pth_image!(c17_pth_image_2, 2, 96);
+
+/// a PTH image with a wrong magic is rejected
+#[kani::proof]
+#[kani::unwind(8)]
+#[kani::stub(alloc::fmt::format, stub_format)]
+fn c17_pth_bad_magic() {
+    let mut img: [u8; 16] = kani::any();
+    kani::assume(!(img[0] == b'L' && img[1] == b'F' && img[2] == b'S' && img[3] == b'P' && img[4] == b'T' && img[5] == b'H'));
+    img[8] = 0; img[9] = 0; img[10] = 0; img[11] = 0;
+    let mut c = Cursor::new(&img[..]);
+    let r = Pth::read(&mut c);
+    let ok = r.is_ok();
+    std::mem::forget(r);
+    assert!(!ok, "C17:PTH with a wrong magic accepted");
+}
+
+/// a one-node PTH cut short at a fixed set of points inside its declared content is rejected
+macro_rules! pth_truncated {
+    ($name:ident, $cut:expr) => {
+        #[kani::proof]
+        #[kani::unwind(8)]
+        #[kani::stub(alloc::fmt::format, stub_format)]
+        fn $name() {
+            let mut img: [u8; 56] = kani::any();
+            img[0] = b'L'; img[1] = b'F'; img[2] = b'S'; img[3] = b'P'; img[4] = b'T'; img[5] = b'H';
+            img[8] = 1; img[9] = 0; img[10] = 0; img[11] = 0;
+            let mut c = Cursor::new(&img[..$cut]);
+            let r = Pth::read(&mut c);
+            let ok = r.is_ok();
+            std::mem::forget(r);
+            assert!(!ok, "C17:PTH cut short inside its declared content accepted");
+        }
+    };
+}
+pth_truncated!(c17_pth_cut_55, 55);
+pth_truncated!(c17_pth_cut_36, 36);
+pth_truncated!(c17_pth_cut_16, 16);
+
+/// SMX header (64 bytes) + object count 0 + checkpoint count 0/1
+macro_rules! smx_image {
+    ($name:ident, $nobj:expr, $ncp:expr, $len:expr, $objbytes:expr) => {
+        #[kani::proof]
+        #[kani::unwind(34)]
+        #[kani::stub(alloc::fmt::format, stub_format)]
+        #[kani::stub(insim_core::string::codepages::to_lossy_string, stub_to_lossy_string)]
+        #[kani::stub(insim_core::string::codepages::to_lossy_bytes, stub_to_lossy_bytes)]
+        fn $name() {
+            let mut img: [u8; $len] = kani::any();
+            img[0] = b'L'; img[1] = b'F'; img[2] = b'S'; img[3] = b'S'; img[4] = b'M'; img[5] = b'X';
+            // canonical file: spare bytes zero, track name NUL padded after its first NUL
+            img[12] = 0; img[13] = 0; img[14] = 0; img[15] = 0;
+            let mut k = 51; while k < 60 { img[k] = 0; k += 1; }
+            // track name: 3 symbolic non-NUL ASCII bytes, NUL padded (a symbolic name LENGTH does not close, DESIGN C11)
+            let mut k = 16; while k < 19 { kani::assume(img[k] != 0 && img[k] < 0x80); k += 1; }
+            let mut k = 19; while k < 48 { img[k] = 0; k += 1; }
+            img[60] = $nobj; img[61] = 0; img[62] = 0; img[63] = 0;
+            let o = 64 + $objbytes;
+            if $nobj == 1 {
+                // one object with 1 point and 1 triangle: counts at offset 64+16 and 64+20
+                img[64 + 16] = 1; img[64 + 17] = 0; img[64 + 18] = 0; img[64 + 19] = 0;
+                img[64 + 20] = 1; img[64 + 21] = 0; img[64 + 22] = 0; img[64 + 23] = 0;
+                // triangle spare
+                img[64 + 24 + 16 + 6] = 0; img[64 + 24 + 16 + 7] = 0;
+            }
+            img[o] = $ncp; img[o + 1] = 0; img[o + 2] = 0; img[o + 3] = 0;
+            let mut c = Cursor::new(&img[..]);
+            let r = Smx::read(&mut c);
+            match &r {
+                Ok(p) => {
+                    assert!(c.position() == $len, "C17:SMX reader consumes the whole image");
+                    assert!(p.objects.len() == $nobj && p.checkpoint_object_index.len() == $ncp, "C17:SMX counts as declared");
+                    let mut out = [0xAAu8; $len];
+                    let mut w = Cursor::new(&mut out[..]);
+                    assert!(p.write(&mut w).is_ok(), "C17:parsed SMX writes");
+                    assert!(w.position() == $len, "C17:written SMX has the same length");
+                    let i: usize = kani::any();
+                    kani::assume(i < $len);
+                    assert!(out[i] == img[i], "C17:written SMX bytes identical to the canonical bytes read");
+                    kani::cover!(true, "SMX image parsed");
+                }
+                Err(_) => assert!(false, "C17:well-formed SMX image rejected"),
+            }
+            std::mem::forget(r);
+        }
+    };
+}
+smx_image!(c17_smx_image_0_0, 0, 0, 68, 0);
+smx_image!(c17_smx_image_0_1, 0, 1, 72, 0);
+smx_image!(c17_smx_image_1_1, 1, 1, 120, 48);
